@@ -1,0 +1,119 @@
+//go:build verif
+
+/*
+ * Licensed to the Apache Software Foundation (ASF) under one or more
+ * contributor license agreements.  See the NOTICE file distributed with
+ * this work for additional information regarding copyright ownership.
+ * The ASF licenses this file to You under the Apache License, Version 2.0
+ * (the "License"); you may not use this file except in compliance with
+ * the License.  You may obtain a copy of the License at
+ *
+ *     http://www.apache.org/licenses/LICENSE-2.0
+ *
+ * Unless required by applicable law or agreed to in writing, software
+ * distributed under the License is distributed on an "AS IS" BASIS,
+ * WITHOUT WARRANTIES OR CONDITIONS OF ANY KIND, either express or implied.
+ * See the License for the specific language governing permissions and
+ * limitations under the License.
+ */
+
+package message
+
+// Verification contracts for property C12: every message reports the type code of the Seata v1 table.
+
+//@ func (GlobalBeginRequest).GetTypeCode
+//@   prop C12
+//@   ensures typecode: result == typecode(GlobalBeginRequest)
+//@   nopanic
+//@ func (GlobalBeginResponse).GetTypeCode
+//@   prop C12
+//@   ensures typecode: result == typecode(GlobalBeginResponse)
+//@   nopanic
+//@ func (BranchCommitRequest).GetTypeCode
+//@   prop C12
+//@   ensures typecode: result == typecode(BranchCommitRequest)
+//@   nopanic
+//@ func (BranchCommitResponse).GetTypeCode
+//@   prop C12
+//@   ensures typecode: result == typecode(BranchCommitResponse)
+//@   nopanic
+//@ func (BranchRollbackRequest).GetTypeCode
+//@   prop C12
+//@   ensures typecode: result == typecode(BranchRollbackRequest)
+//@   nopanic
+//@ func (BranchRollbackResponse).GetTypeCode
+//@   prop C12
+//@   ensures typecode: result == typecode(BranchRollbackResponse)
+//@   nopanic
+//@ func (GlobalCommitRequest).GetTypeCode
+//@   prop C12
+//@   ensures typecode: result == typecode(GlobalCommitRequest)
+//@   nopanic
+//@ func (GlobalCommitResponse).GetTypeCode
+//@   prop C12
+//@   ensures typecode: result == typecode(GlobalCommitResponse)
+//@   nopanic
+//@ func (GlobalRollbackRequest).GetTypeCode
+//@   prop C12
+//@   ensures typecode: result == typecode(GlobalRollbackRequest)
+//@   nopanic
+//@ func (GlobalRollbackResponse).GetTypeCode
+//@   prop C12
+//@   ensures typecode: result == typecode(GlobalRollbackResponse)
+//@   nopanic
+//@ func (BranchRegisterRequest).GetTypeCode
+//@   prop C12
+//@   ensures typecode: result == typecode(BranchRegisterRequest)
+//@   nopanic
+//@ func (BranchRegisterResponse).GetTypeCode
+//@   prop C12
+//@   ensures typecode: result == typecode(BranchRegisterResponse)
+//@   nopanic
+//@ func (BranchReportRequest).GetTypeCode
+//@   prop C12
+//@   ensures typecode: result == typecode(BranchReportRequest)
+//@   nopanic
+//@ func (BranchReportResponse).GetTypeCode
+//@   prop C12
+//@   ensures typecode: result == typecode(BranchReportResponse)
+//@   nopanic
+//@ func (GlobalStatusRequest).GetTypeCode
+//@   prop C12
+//@   ensures typecode: result == typecode(GlobalStatusRequest)
+//@   nopanic
+//@ func (GlobalStatusResponse).GetTypeCode
+//@   prop C12
+//@   ensures typecode: result == typecode(GlobalStatusResponse)
+//@   nopanic
+//@ func (GlobalReportRequest).GetTypeCode
+//@   prop C12
+//@   ensures typecode: result == typecode(GlobalReportRequest)
+//@   nopanic
+//@ func (GlobalReportResponse).GetTypeCode
+//@   prop C12
+//@   ensures typecode: result == typecode(GlobalReportResponse)
+//@   nopanic
+//@ func (GlobalLockQueryRequest).GetTypeCode
+//@   prop C12
+//@   ensures typecode: result == typecode(GlobalLockQueryRequest)
+//@   nopanic
+//@ func (GlobalLockQueryResponse).GetTypeCode
+//@   prop C12
+//@   ensures typecode: result == typecode(GlobalLockQueryResponse)
+//@   nopanic
+//@ func (RegisterTMRequest).GetTypeCode
+//@   prop C12
+//@   ensures typecode: result == typecode(RegisterTMRequest)
+//@   nopanic
+//@ func (RegisterTMResponse).GetTypeCode
+//@   prop C12
+//@   ensures typecode: result == typecode(RegisterTMResponse)
+//@   nopanic
+//@ func (RegisterRMRequest).GetTypeCode
+//@   prop C12
+//@   ensures typecode: result == typecode(RegisterRMRequest)
+//@   nopanic
+//@ func (RegisterRMResponse).GetTypeCode
+//@   prop C12
+//@   ensures typecode: result == typecode(RegisterRMResponse)
+//@   nopanic
